@@ -17,6 +17,7 @@ package h2
 import (
 	"bytes"
 	"fmt"
+	"sync/atomic"
 
 	"golang.org/x/net/http2"
 )
@@ -84,6 +85,9 @@ type queuedHeaderFrame struct {
 	endStream bool
 	priority  http2.PriorityParam
 	chunks    [][]byte
+	// maxFrameSize points at the destination's current SETTINGS_MAX_FRAME_SIZE: the block may be
+	// written long after it was cut into chunks (it can wait behind window-blocked DATA).
+	maxFrameSize *uint32
 }
 
 func (f *queuedHeaderFrame) StreamID() uint32 {
@@ -95,6 +99,11 @@ func (*queuedHeaderFrame) flowControlSize() int {
 }
 
 func (f *queuedHeaderFrame) send(dest *http2.Framer) error {
+	meta := 0
+	if !f.priority.IsZero() {
+		meta = headersPriorityMetadataLength
+	}
+	f.chunks = rechunk(f.chunks, meta, f.maxFrameSize)
 	if err := dest.WriteHeaders(http2.HeadersFrameParam{
 		StreamID:      f.streamID,
 		BlockFragment: f.chunks[0],
@@ -128,10 +137,28 @@ func (f *queuedHeaderFrame) String() string {
 	return buf.String()
 }
 
+// rechunk cuts a header block again if the destination has lowered its maximum frame size since
+// the block was queued. metadataLength is what the first frame spends on its fixed fields.
+func rechunk(chunks [][]byte, metadataLength int, maxFrameSize *uint32) [][]byte {
+	if maxFrameSize == nil {
+		return chunks
+	}
+	max := int(atomic.LoadUint32(maxFrameSize))
+	fits := len(chunks[0]) <= max-metadataLength
+	for _, c := range chunks[1:] {
+		fits = fits && len(c) <= max
+	}
+	if fits {
+		return chunks
+	}
+	return splitIntoChunks(max-metadataLength, max, bytes.Join(chunks, nil))
+}
+
 type queuedPushPromiseFrame struct {
-	streamID  uint32
-	promiseID uint32
-	chunks    [][]byte
+	streamID     uint32
+	promiseID    uint32
+	chunks       [][]byte
+	maxFrameSize *uint32 // see queuedHeaderFrame
 }
 
 func (f *queuedPushPromiseFrame) StreamID() uint32 {
@@ -143,6 +170,7 @@ func (*queuedPushPromiseFrame) flowControlSize() int {
 }
 
 func (f *queuedPushPromiseFrame) send(dest *http2.Framer) error {
+	f.chunks = rechunk(f.chunks, pushPromiseMetadataLength, f.maxFrameSize)
 	if err := dest.WritePushPromise(http2.PushPromiseParam{
 		StreamID:      f.streamID,
 		PromiseID:     f.promiseID,
